@@ -20,6 +20,8 @@ where
 {
     db: DB,
     cache: BTreeMap<u64, V>,
+    #[cfg(brc20_verif)]
+    verif_name: String,
 }
 
 impl<V> BlockDatabase<V>
@@ -42,6 +44,8 @@ where
         Ok(Self {
             db,
             cache: BTreeMap::new(),
+            #[cfg(brc20_verif)]
+            verif_name: name.to_string(),
         })
     }
 
@@ -82,8 +86,12 @@ where
     /// It does not clear the cache
     pub fn commit(&mut self) -> Result<(), Box<dyn Error>> {
         for (key, value) in self.cache.iter() {
+            #[cfg(brc20_verif)]
+            crate::verif::persist(&self.verif_name, "block", "put")?;
             self.db.put(&key.encode_vec(), &value.encode_vec())?;
         }
+        #[cfg(brc20_verif)]
+        crate::verif::persist(&self.verif_name, "block", "flush")?;
         self.db.flush()?;
         Ok(())
     }
@@ -126,6 +134,8 @@ where
         let last_block = self.last_key()?;
         if let Some(end) = last_block {
             while end >= current {
+                #[cfg(brc20_verif)]
+                crate::verif::persist(&self.verif_name, "block", "del")?;
                 self.db.delete(&U64ED::from(current).encode_vec())?;
                 self.cache.remove(&current);
                 current += 1;
